@@ -35,7 +35,7 @@ class ByteArray(bytes):
   def __new__(cls, arg):
     try:
       if isinstance(arg, str):
-        if not re.match(r"^[0-9A-F]+$", arg):
+        if not re.match(r"^[0-9A-F]+\Z", arg):
           raise gfapy.FormatError(
             "{} is not a valid hex string\n".format(repr(arg))+
             "(it does not match the regular expression [0-9A-F]+)")
